@@ -3,7 +3,12 @@
 package app
 
 import (
+	"context"
+	"net/http"
+	"net/url"
 	"strings"
+
+	"google.golang.org/grpc/metadata"
 
 	"github.com/nuetzliches/hookaido/internal/config"
 	vrt "github.com/nuetzliches/hookaido/internal/verifrt"
@@ -83,4 +88,60 @@ func VerifC18SuccessfulReloadAppliesEveryReloadableSetting() {
 		r2, o2 := fresh.resolvePull(ep)
 		vrt.Assert("C18.applies.pull-endpoints-map-as-in-the-new-configuration", r1 == r2 && o1 == o2)
 	}
+}
+
+func hPullCfg(e1Route, e2Route string, tokens map[string]string) config.Compiled {
+	c := config.Compiled{PathToRoute: map[string]string{"/e1": e1Route, "/e2": e2Route}, PullAPI: config.APIConfig{AuthTokens: []string{"raw:global-token"}}}
+	for _, rt := range []string{"/a", "/b"} {
+		ep := "/e1"
+		if e2Route == rt {
+			ep = "/e2"
+		}
+		c.Routes = append(c.Routes, config.CompiledRoute{Path: rt, Pull: &config.PullConfig{Path: ep, AuthTokens: []string{"raw:" + tokens[rt]}}})
+	}
+	return c
+}
+
+// verif:harness props=C18,C11 tier=quick weight=25
+// verif:bounds a pull (HTTP) or worker (gRPC) authorisation decision racing a successful reload that remaps the endpoints /e1 and /e2 between routes /a and /b and may change their tokens: thread A = the real runtimeState.authorizePull / authorizeWorker for endpoint /e1 with a token from {old /a, old /b, new /a, new /b, global, none}, thread B = the real state.reload; every interleaving at mutex acquisitions; the verdict must be the one the OLD configuration gives or the one the NEW configuration gives
+func VerifC18ReloadVsPullAuthorize() {
+	oldTok := map[string]string{"/a": "ta-old", "/b": "tb-old"}
+	newTok := map[string]string{"/a": []string{"ta-old", "ta-new"}[vrt.Choose("new-token-of-a", 2)], "/b": []string{"tb-old", "tb-new"}[vrt.Choose("new-token-of-b", 2)]}
+	oldC := hPullCfg("/a", "/b", oldTok)
+	newC := hPullCfg("/a", "/b", newTok)
+	if vrt.Bool("reload-swaps-the-endpoints") {
+		newC = hPullCfg("/b", "/a", newTok)
+	}
+	tok := []string{"ta-old", "tb-old", "ta-new", "tb-new", "global-token", ""}[vrt.Choose("presented-token", 6)]
+	worker := vrt.Bool("worker-api")
+	decide := func(st *runtimeState) bool {
+		if worker {
+			ctx := context.Background()
+			if tok != "" {
+				ctx = metadata.NewIncomingContext(ctx, metadata.Pairs("authorization", "Bearer "+tok))
+			}
+			return st.authorizeWorker(ctx, "/e1")
+		}
+		r := &http.Request{Method: "POST", URL: &url.URL{Path: "/e1/dequeue"}, Header: http.Header{}, Body: http.NoBody}
+		if tok != "" {
+			r.Header.Set("Authorization", "Bearer "+tok)
+		}
+		return st.authorizePull(r)
+	}
+	mk := func(c config.Compiled) *runtimeState {
+		st := newRuntimeState(c)
+		if err := st.loadAuth(c); err != nil {
+			vrt.Assume(false)
+		}
+		return st
+	}
+	underOld, underNew := decide(mk(oldC)), decide(mk(newC))
+	state := mk(oldC)
+	var rerr error
+	vrt.Go(func() { rerr = state.reload(newC) })
+	got := decide(state)
+	vrt.Join()
+	vrt.Assert("C18.pullauth.reload-succeeds", rerr == nil)
+	vrt.Assert("C18.pullauth.verdict-is-the-old-configurations-or-the-new-configurations", got == underOld || got == underNew)
+	vrt.Assert("C18.pullauth.after-the-reload-the-new-configuration-decides", decide(state) == underNew)
 }
